@@ -208,6 +208,12 @@ func (p *parser) afterBracket() Frag {
 		default:
 			p.raise("invalid bracket fragment")
 		}
+	case '.':
+		// [..] is the bracket notation of a descent.
+		if p.pos+1 < len(p.buf) && p.buf[p.pos] == '.' && p.buf[p.pos+1] == ']' {
+			p.pos += 2
+			return Descent('.')
+		}
 	case ':':
 		return p.readSlice(0)
 	case '?':
